@@ -308,7 +308,13 @@ def strategy(tier):
             min_size=2, max_size=5).map(lambda ms: {"k": "msgseq", "family": fam, "msgs": ms}))
     e2e = st.builds(lambda ch: {"k": "e2e", "changes": ch},
                     st.lists(st.tuples(st.integers(0, 1022), st.binary(min_size=2, max_size=2).map(bytes.hex)).map(list), min_size=1, max_size=4))
-    return st.one_of(msg, msg, msg, msg, msg, msg, hello, hello, framing, framing, seqs, seqs, e2e)
+    # the same through the blocking client's real receive path: several messages in a row on one connection, some of them long
+    rec = st.tuples(st.integers(0, 1022), st.binary(min_size=2, max_size=2).map(bytes.hex)).map(list)
+    e2e_thr = st.builds(lambda ms: {"k": "e2e_thr", "msgs": ms},
+                        st.lists(st.one_of(st.lists(rec, min_size=1, max_size=4), st.lists(rec, min_size=1, max_size=4), st.lists(rec, min_size=50, max_size=120)),
+                                 min_size=1, max_size=4))
+    cheap = st.one_of(msg, msg, msg, msg, msg, msg, hello, hello, framing, framing, seqs, seqs)
+    return st.integers(0, 39).flatmap(lambda i: e2e_thr if i == 0 else (e2e if i == 1 else cheap))
 
 
 # messages that one long-lived handler instance decodes one after the other in real use
@@ -616,9 +622,63 @@ def _e2e(res, case):
     res.label("e2e-async")
 
 
+def _e2e_thr(res, case):
+    """framed partial updates through the blocking client's real receive path (socket read with the library's buffer size,
+    un-framing, dispatch, decode on the connection's long-lived handler): each message must be applied as exactly its own records,
+    in order, and acknowledged with swapped identifiers"""
+    from .. import stepped, vworld
+    from ..runner import SetupFailed
+
+    msgs = [[(int(p_), bytes.fromhex(h_)) for p_, h_ in m] for m in case["msgs"]]
+    if any(p_ + 2 > 1024 or len(d_) != 2 for m in msgs for p_, d_ in m) or any(not 1 <= len(m) <= 255 for m in msgs):
+        raise InvalidCase(case)
+    sim = vworld.make_simulator()
+    eng = stepped.Engine()
+    with eng.patched():
+        spa, ok = stepped.connect_threaded_spa(eng, sim)
+        if not ok:
+            raise SetupFailed("threaded handshake failed fault-free")
+        applied = []
+        orig = spa.struct.replace_status_block_segment
+
+        def rec_replace(pos, data):
+            applied.append((pos, bytes(data)))
+            return orig(pos, data)
+        spa.struct.replace_status_block_segment = rec_replace
+        q = stepped.quiescent(eng, spa)
+        for n, m in enumerate(msgs):
+            del applied[:]
+            s0 = len(eng.sent)
+            dg = R.frame(stepped.SPA_ID, stepped.CLIENT_ID, R.partial_update(m))
+            eng.deliver(dg, stepped.SPA_ADDR)
+            if not stepped.run_until(eng, q):
+                raise SetupFailed("threaded client not quiescent")
+            t_end = eng.vt.t + 0.5
+            stepped.run_until(eng, lambda: eng.vt.t >= t_end)
+            size = "long" if len(dg) > 300 else "short"
+            if applied != m:
+                res.fail(f"C04|e2e-threaded|decode|{size}|{'first' if n == 0 else 'later'}-message",
+                         f"message #{n} ({len(m)} records, {len(dg)} bytes on the wire) was applied as {applied[:6]}{'...' if len(applied) > 6 else ''} "
+                         f"({len(applied)} records), its records are {m[:6]}{'...' if len(m) > 6 else ''}")
+            acks = [d for _, d, _ in eng.sent[s0:] if b"<DATAS>STATQ" in d]
+            if len(acks) != 1:
+                res.fail(f"C04|e2e-threaded|ack-count|{size}", f"message #{n} ({len(dg)} bytes): {len(acks)} acknowledgements")
+            else:
+                got = R.unframe(acks[0])
+                if got is None or (got[0], got[1]) != (stepped.CLIENT_ID, stepped.SPA_ID):
+                    res.fail("C04|e2e-threaded|ack-framing", f"acknowledgement on the wire: {acks[0]!r}")
+    res.nontrivial = len(msgs) >= 2 or any(len(m) >= 50 for m in msgs)
+    res.label("e2e-threaded")
+    if any(len(m) >= 50 for m in msgs):
+        res.label("e2e-threaded-long-datagram")
+
+
 def run_case(case) -> Result:
     res = Result()
     k = case.get("k")
+    if k == "e2e_thr":
+        _e2e_thr(res, case)
+        return res
     if k == "e2e":
         _e2e(res, case)
         return res
